@@ -62,7 +62,7 @@ fn props() -> Vec<PropDef> {
 		p!("C13", "exploration", c13, part),
 		p!("C14", "exploration", c14, part),
 		p!("C15", "exploration", c15, part),
-		p!("C16", "exploration", c16),
+		p!("C16", "exploration", c16, part),
 		p!("C17", "exploration", c17, part),
 		p!("C18", "exploration", c18, part),
 		p!("C19", "exploration", c19, part),
